@@ -155,10 +155,11 @@ v('c17-tilde-allowed', 'C17', 'C17/grammar-exhaustive', 'factor:~', ('rogw/tranp
 v('c17-cast-swapped', 'C17', 'C17/literal-decoding', 'cast:int', ('rogw/tranp/implements/transpiler/evaluator.py', "		if org_calls == 'int':\n			if isinstance(arguments[0], str):\n				return int(arguments[0][1:-1])\n			else:\n				return int(arguments[0])", "		if org_calls == 'int':\n			if isinstance(arguments[0], str):\n				return int(arguments[0][1:-1])\n			else:\n				return round(float(arguments[0]))"))
 
 # ---- C18 ----
-v('c18-f43-reverted-skip', 'C18', 'C18/quoted-text-is-opaque', '_skip_other_block', ('rogw/tranp/view/helper/block.py', "			if text[index] in other_tokens and (not in_quote or text[index] == other_closes[-1]):", "			if text[index] in other_tokens:"))
+v('c18-f43-reverted-skip', 'C18', 'C18/quoted-text-is-opaque', '_skip_other_block', ('rogw/tranp/view/helper/block.py', "			if text[index] in other_tokens and not cls._is_operator(text, index) and (not in_quote or text[index] == other_closes[-1]):", "			if text[index] in other_tokens and not cls._is_operator(text, index):"))
 v('c18-f43-reverted-last-block', 'C18', 'C18/quoted-text-is-opaque', 'break_last_block', ('rogw/tranp/view/helper/block.py', "			if text[index] in '\"\\'':\n				# 文字列内の括弧はブロックとして数えない\n				index = cls._skip_other_block(text, '\"\"\\'\\'', index)\n				continue\n\n", ""))
 v('c18-quotes-dropped-from-table', 'C18', 'C18/pair-table', '_all_pair', ('rogw/tranp/view/helper/block.py', "	_all_pair = ['[]', '()', '{}', '<>', '\"\"', \"''\"]", "	_all_pair = ['[]', '()', '{}', '<>']"))
 v('c18-separator-skips-brackets-only', 'C18', 'C18/quoted-text-is-opaque', 'break_separator', ('rogw/tranp/view/helper/block.py', "		open_tokens = ''.join([pair[0] for pair in cls._all_pair])\n		other_tokens = ''.join(cls._all_pair)\n		blocks: list[str] = []", "		open_tokens = '[({<'\n		other_tokens = ''.join(cls._all_pair)\n		blocks: list[str] = []"))
+v('c18-f46-reverted', 'C18', 'C18/angle-brackets-disambiguated', 'break_separator', ('rogw/tranp/view/helper/block.py', "			if text[index] in open_tokens and not cls._is_operator(text, index):", "			if text[index] in open_tokens:"))
 # ---- C19 ----
 v('c19-clone-alias', 'C19', 'C19/clone-owns-storage', '_clone', ('rogw/tranp/lang/di.py', '		di.__injectors = self.__injectors.copy()', '		di.__injectors = self.__injectors'))
 v('c19-combine-left-wins', 'C19', 'C19/clone-owns-storage', 'right-wins', ('rogw/tranp/lang/di.py', '		di.__instances = {**di.__instances, **other.__instances}', '		di.__instances = {**other.__instances, **di.__instances}'))
